@@ -56,7 +56,7 @@ fn gen(rng: &mut Rng, tier: Tier) -> Value {
       ops,
     }
   };
-  json!({ "spec": spec })
+  json!({ "spec": spec, "prelude": super::gen_prelude(rng) })
 }
 
 fn norm(a: &At) -> At {
@@ -72,8 +72,9 @@ fn norm(a: &At) -> At {
   }
 }
 
-fn check_concat(children: &[Spec], spec: &Spec, obs: &mut Obs) -> bool {
+fn check_concat(children: &[Spec], spec: &Spec, case: &Value, obs: &mut Obs) -> bool {
   let src = build_box(spec);
+  super::run_prelude(case, &src, obs);
   let out = src.source().to_string();
   let mut interesting = false;
   // ---- columns = true
@@ -192,8 +193,9 @@ struct InnerChunk {
   at: At,
 }
 
-fn check_replace(inner: &Spec, ops: &[Op], spec: &Spec, obs: &mut Obs) -> bool {
+fn check_replace(inner: &Spec, ops: &[Op], spec: &Spec, case: &Value, obs: &mut Obs) -> bool {
   let src = build_box(spec);
+  super::run_prelude(case, &src, obs);
   let out = src.source().to_string();
   let inner_src = build_box(inner);
   let inner_text = inner_src.source().to_string();
@@ -403,11 +405,11 @@ fn check(case: &Value, obs: &mut Obs) {
   let interesting = match &spec {
     Spec::Concat { children, .. } => {
       obs.class("root:Concat");
-      check_concat(children, &spec, obs)
+      check_concat(children, &spec, case, obs)
     }
     Spec::Replace { inner, ops } => {
       obs.class("root:Replace");
-      check_replace(inner, ops, &spec, obs)
+      check_replace(inner, ops, &spec, case, obs)
     }
     _ => {
       // shrinking may promote a child to the root: nothing to compare
